@@ -92,3 +92,23 @@ VPN_RULE = ("two PE neighbours (route-reflector clients, VPNv4, RT-Constrain neg
 PROP_INFO["C17"] = {"level": "exploration", "rule": VPN_RULE, "probes": ["vpn_announce", "ce_announce", "vrf_originate"], "budget": {"quick": 60, "thorough": 1200}}
 SUITES["C17"] = {"quick": [{"family": "vpn", "mode": "", "share": 1}], "thorough": [{"family": "vpn", "mode": "", "share": 1}]}
 ALL_FAMILIES += [("vpn", "")]
+
+MON_RULE = ("seeded scripts over three neighbours (2- and 4-octet AS, one 2-octet-only speaker, optional ADD-PATH receive, IPv4/IPv6), an optional import "
+            "policy, two simulated BMP stations (RFC 7854/9069 reader written independently of gobgp's bmp package) and the MRT writer dumping to "
+            "scratch files read by an independent RFC 6396/8050 parser. Phases run neighbour activity (announce/replace/withdraw/flap/End-of-RIB) "
+            "concurrently with monitoring activity: station add/delete with each monitoring policy, connection reset, refuse-then-accept, stalled reader "
+            "(back-pressure), statistics timer, MRT enable (updates or table, rotation or dump interval). At quiescent points the peers, routes and "
+            "attributes decoded from the BMP stream and from the newest table dump are compared with the daemon's neighbour list, Adj-RIB-In and "
+            "global table read through the API; after shutdown every dump file must be framed exactly and the update dumps must reproduce, in order, "
+            "the UPDATEs the neighbours sent. A run is NON-TRIVIAL if at least one quiescent comparison ran against a connected station or a parsed "
+            "dump with a non-empty table; DISTINCT by (schedule signature, event-log hash).")
+PROP_INFO["C19"] = {"level": "exploration", "rule": MON_RULE, "probes": ["bmp_route_monitoring", "bmp_initiation"], "budget": {"quick": 60, "thorough": 1200}}
+SUITES["C19"] = {"quick": [{"family": "mon", "mode": "", "share": 3}, {"family": "rpki", "mode": "corrupt", "share": 1}],
+                 "thorough": [{"family": "mon", "mode": "", "share": 3}, {"family": "rpki", "mode": "corrupt", "share": 1}]}
+ALL_FAMILIES.append(("mon", ""))
+
+# C20 also runs the families with external services (monitoring stations, dump files, RTR caches, VRFs)
+SUITES["C20"]["quick"] += [{"family": "mon", "mode": "", "share": 1}, {"family": "rpki", "mode": "", "share": 1}]
+SUITES["C20"]["thorough"] += [{"family": "mon", "mode": "", "share": 2}, {"family": "rpki", "mode": "", "share": 1}, {"family": "vpn", "mode": "", "share": 1}, {"family": "reset", "mode": "", "share": 1},
+                              {"family": "mon", "mode": "", "share": 1, "race": True}, {"family": "rpki", "mode": "", "share": 1, "race": True}]
+PROP_INFO["C20"]["rule"] = PROP_INFO["C20"]["rule"].replace("all simulation families (world, fsm, gr, wire;", "all simulation families (world, fsm, gr, wire, mon, rpki, vpn, reset;")
